@@ -56,6 +56,18 @@ func (tree *ParserT) parseString(qStart, qEnd rune, exec bool) ([]rune, error) {
 			}
 			value = append(value, v...)
 
+		case r == '\\' && qStart == '"' && !exec:
+			// an escaped character (eg \") must not end the quote while only
+			// parsing the syntax; keep it verbatim for the exec pass
+			value = append(value, r)
+			if tree.charPos+1 < len(tree.expression) {
+				tree.charPos++
+				value = append(value, tree.expression[tree.charPos])
+				if tree.expression[tree.charPos] == '\n' {
+					tree.crLf()
+				}
+			}
+
 		case r == '\n':
 			value = append(value, r)
 			tree.crLf()
